@@ -894,7 +894,15 @@ class Executor:
             raise Unsupported("SetDiscriminant on %r" % (cur,))
         local, _ = self.parse_place(lhs)
         v = self.rvalue(st, fid, rhs, fn.locals.get(local, "?"))
-        self.write_place(st, fid, lhs, v)
+        if isinstance(v, Agg) and v.ty == "array":
+            # array literals (e.g. the backing store of vec![..]) are recorded: their later travel
+            # through Box / MaybeUninit plumbing is not tracked, their contents are
+            st.trace.append(Event(callee="<array>", short="<array>", args=[v], akeys=[self.deep_key(st, v)], result=v, fn=fn.name))
+        try:
+            self.write_place(st, fid, lhs, v)
+        except Unsupported:
+            if not (isinstance(v, Agg) and v.ty == "array"):
+                raise
 
     def targets(self, t):
         m = re.search(r"-> \[(.*)\];$", t)
